@@ -46,8 +46,25 @@ func RandomUniformBinaryTree(nbtips int, rooted bool) (*Tree, error) {
 			}
 			t.SetRoot(n2)
 		default:
-			// Where to insert the new tip
-			i_edge := rand.Intn(len(edges))
+			// Where to insert the new tip: on one of the edges, or,
+			// if the tree is rooted, above the current root (otherwise
+			// all rooted topologies are not reachable)
+			npos := len(edges)
+			if rooted {
+				npos++
+			}
+			i_edge := rand.Intn(npos)
+			if i_edge == len(edges) {
+				newroot := t.NewNode()
+				newedge := t.ConnectNodes(newroot, t.Root())
+				newedge2 := t.ConnectNodes(newroot, n)
+				newedge.SetLength(gostats.Exp(lambda))
+				newedge2.SetLength(gostats.Exp(lambda))
+				t.SetRoot(newroot)
+				edges = append(edges, newedge)
+				edges = append(edges, newedge2)
+				continue
+			}
 			e := edges[i_edge]
 			newedge, newedge2, _, err := t.GraftTipOnEdge(n, e)
 			e.SetLength(gostats.Exp(lambda))
